@@ -207,7 +207,7 @@ func vfC08LenRel(got, want []byte) string {
 
 // vfC08Positions lists the byte positions of a stored chunk of n bytes that are altered:
 // all of them when n <= full, otherwise an explicit sub-grid (first 32, last 40 — which
-// covers the checksum and the tail of the protected part —, every 4099th, powers of two
+// covers the checksum and the tail of the protected part —, every 4099th (every 65521st above 100000 bytes), powers of two
 // and their neighbours).
 func vfC08Positions(n, full int) (pos []int, all bool) {
 	if n <= full {
@@ -224,7 +224,11 @@ func vfC08Positions(n, full int) (pos []int, all bool) {
 	for i := n - 40; i < n; i++ {
 		set[i] = true
 	}
-	for i := 0; i < n; i += 4099 {
+	step := 4099
+	if n > 100000 {
+		step = 65521
+	}
+	for i := 0; i < n; i += step {
 		set[i] = true
 	}
 	for p := 32; p < n; p *= 2 {
@@ -414,7 +418,7 @@ func vfC08Point(p vfC08Pipe, n, content int, payload []byte, thorough bool, pars
 	if p.outF {
 		where = "outermost-f32"
 		full = 4300
-		if thorough {
+		if thorough && len(p.items) <= 2 {
 			full = 70000
 		}
 	}
@@ -703,5 +707,5 @@ func TestVerif_C08(t *testing.T) {
 	r.Set("corrupted_variants_per_decoder", variants)
 	r.Sample(map[string]any{"pipeline": "shuffle(4)>deflate(6)>fletcher32", "length": 4096, "content": "ramp", "checked": "Remove(Apply(p))==p; core.ApplyFilters(Apply(p))==p; every stored byte ^ {01,80,FF} -> error in both decoders; every adjacent word swap -> error"})
 	r.Sample(map[string]any{"pipeline": "fletcher32>lzf", "length": 33, "content": "one-odd-byte", "checked": "every stored byte ^ every mask 01..FF -> error or the original payload, in both decoders"})
-	r.Rule(fmt.Sprintf("every (pipeline, length, content) of the listed grid: %d pipelines (all ordered selections without repetition of <=%d kinds from deflate{1,6,9}, shuffle{1,2,4,8}, fletcher32, lzf, plus the empty one) x %d lengths x 6 contents (+2 period-8192/8193 contents for lengths > 4097); a point is non-trivial when the pipeline is non-empty, the writer accepts it and (length>0 or content==zeros). Corruption: for pipelines containing fletcher32 every byte of the stored chunk (all positions when the stored chunk is <= 4300 bytes [outermost, quick], 70000 [outermost, thorough], 600/4300 [inner quick/thorough]; otherwise the listed position sub-grid: first 32, last 40, every 4099th, powers of two +-1) x masks {01,80,FF} (all 255 masks for payload length <= 33 when fletcher32 is outermost; thorough: also inner), plus every adjacent non-congruent 16-bit word transposition of the protected part where all positions are enumerated; each variant decoded by the writer's Remove and by core's ApplyFilters", len(pipes), maxLen, len(lengths)))
+	r.Rule(fmt.Sprintf("every (pipeline, length, content) of the listed grid: %d pipelines (all ordered selections without repetition of <=%d kinds from deflate{1,6,9}, shuffle{1,2,4,8}, fletcher32, lzf, plus the empty one) x %d lengths x 6 contents (+2 period-8192/8193 contents for lengths > 4097); a point is non-trivial when the pipeline is non-empty, the writer accepts it and (length>0 or content==zeros). Corruption: for pipelines containing fletcher32 every byte of the stored chunk (all positions when the stored chunk is <= 4300 bytes [outermost], 70000 [outermost, thorough, pipelines of <= 2 filters], 600/4300 [inner quick/thorough]; otherwise the listed position sub-grid: first 32, last 40, every 4099th [every 65521st above 100000 bytes], powers of two +-1) x masks {01,80,FF} (all 255 masks for payload length <= 33 when fletcher32 is outermost; thorough: also inner), plus every adjacent non-congruent 16-bit word transposition of the protected part where all positions are enumerated; each variant decoded by the writer's Remove and by core's ApplyFilters", len(pipes), maxLen, len(lengths)))
 }
